@@ -21,7 +21,12 @@ import EpModel.Lemmas.ReadVsSlice
       IpSlice/LaxIpSlice, which look at the IHL first) is excluded by hypothesis and characterised in
       C03 (`ShortV4`) - both answers reject and both are true of the bytes;
     * starting at the IPv4 / IPv6 ether type equals starting at IP (same packet with the link set);
-    * header readers vs `from_slice` for the IPv4 and IPv6 headers (re-exported from C15's bit-level model);
+    * header readers vs `from_slice` for the IPv4 and IPv6 headers (re-exported from C15's bit-level model), and -
+      section "every header reader against the `from_slice` of the same header type" - for ALL 17 header types
+      (Ethernet II, VLAN, Linux SLL, MACsec, ARP, IPv4, IPv6, IPv6 raw extension / fragment, IP authentication,
+      UDP, TCP, ICMPv4, ICMPv6, Ipv4Extensions, Ipv6Extensions, IpHeaders) over every byte string: read = from_slice
+      on success (same header, exactly the header's bytes gathered and consumed), the same content rejections,
+      length error = end of data; the rules that need the end of the slice are explicit exceptions;
     * starting at an Ethernet II header equals starting at its ether type on the bytes behind it, offsets
       moved by 14 (last section).  The wire-format walk is proved placement independent
       (Lemmas/SpecShift.lean: `step_shift` for every branch of `Spec.step`, `chain_shift`, `walkN_shift`;
@@ -39,8 +44,7 @@ import EpModel.Lemmas.ReadVsSlice
       or the limiting field); that part stays with the correspondence check, which runs both doors.
   Not proved (checked by correspondence + oracle only): Ethernet II start vs ether-type start for the
   struct families `PacketHeaders` / `LaxPacketHeaders` (C03 / C05 refine the slice families `SlicedPacket` /
-  `LaxSlicedPacket` only; the oracle compares all four families after shifting by 14); the remaining
-  header readers (C16 models their I/O).
+  `LaxSlicedPacket` only; the oracle compares all four families after shifting by 14).
 -/
 namespace EpModel.Props.C06
 open EpModel EpModel.Dec EpModel.Lemmas.Refine EpModel.Lemmas.Copies
@@ -92,7 +96,8 @@ theorem from_ipv6_ether_type_equals_from_ip (g : Mem) (n : Nat) (h6 : g 0 / 16 =
 /-- hypotheses of the above are satisfiable and the conclusion is not about errors only -/
 example : (fun i => if i = 0 then 0x45 else 0 : Mem) 0 / 16 = 4 := by decide
 
-/-! ### readers vs slices (bit-level model of C15) -/
+/-! ### readers vs slices (bit-level model of C15; the byte-level theorems for every header type are in the
+  section "every header reader against the `from_slice` of the same header type" below) -/
 
 theorem ipv4_read_equals_from_slice (b : Bytes) (h : EpModel.BitFields.Ip4) (r : Bytes)
     (hd : EpModel.BitFields.Ip4.fromSlice b = .ok (h, r)) : EpModel.BitFields.Ip4.read b = some (.ok h) :=
